@@ -76,7 +76,11 @@ func (s *solver) readLine() string {
 func (s *solver) check(assumps []string) string {
 	t0 := time.Now()
 	s.queries++
-	s.send("(check-sat-assuming (" + strings.Join(assumps, " ") + "))")
+	if len(assumps) == 0 {
+		s.send("(check-sat)")
+	} else {
+		s.send("(check-sat-assuming (" + strings.Join(assumps, " ") + "))")
+	}
 	r := s.readLine()
 	s.dur += time.Since(t0)
 	switch r {
